@@ -124,11 +124,19 @@ Definition with_streams_crc (s : pmt_sec) (ss : list es) (c : bytes) : pmt_sec :
 Definition filtered_sec (s : pmt_sec) (want : list N) : pmt_sec :=
   let ss := keep_streams want (sstreams s) in
   with_streams_crc s ss (crc_model (ser_sec_nocrc (with_streams_crc s ss []))).
-(* requested PIDs that count as missing: not in the PMT, and neither the PAT PID nor the PMT PID *)
+(* Error contract of the filter, written from the property text: "no error when every requested PID (ignoring the PAT and
+   PMT PIDs) is in the PMT, packets plus an error naming the missing PIDs when only some are, and no packets plus an error
+   when none are".  The PAT PID (0) and the PMT's own PID are ignored wherever they occur in the request. *)
+(* the requested PIDs that are considered at all, in request order, duplicates kept *)
+Definition considered (pmt_pid : N) (want : list N) : list N :=
+  filter (fun x => negb (x =? 0) && negb (x =? pmt_pid)) want.
+(* the considered PIDs that no elementary stream of the PMT carries: these are named by the error *)
 Definition missing_of (have : list N) (pmt_pid : N) (want : list N) : list N :=
-  filter (fun x => negb (existsb (N.eqb x) have) && negb (x =? 0) && negb (x =? pmt_pid)) want.
-(* a requested PID that does not count as missing *)
-Definition requested_ok (have : list N) (pmt_pid x : N) : Prop := In x have \/ x = 0 \/ x = pmt_pid.
+  filter (fun x => negb (existsb (N.eqb x) have)) (considered pmt_pid want).
+(* "none are": at least one PID is considered and every considered one is missing.  When NO PID is considered (only the
+   PAT / PMT PID requested) nothing is missing: packets (of a PMT without the unrequested streams) and no error. *)
+Definition none_present (have : list N) (pmt_pid : N) (want : list N) : bool :=
+  (0 <? len (missing_of have pmt_pid want)) && (len (missing_of have pmt_pid want) =? len (considered pmt_pid want)).
 (* re-packetisation: output packet i = header of input packet i (everything before its payload), the next
    188 - |header| bytes of the data, 0xFF padding; input packets beyond the end of the data are dropped *)
 Fixpoint spec_repack (hdrs : list bytes) (data : bytes) : list bytes :=
